@@ -1745,6 +1745,12 @@ func (s *BgpServer) handleFSMMessage(peer *peer, e *fsmMsg) {
 				s.propagateUpdate(peer, peer.StaleAll(gracefulFamilies))
 			} else {
 				dropFamilies = peer.configuredRFlist()
+				// A loss that is not graceful ends an unfinished restart of
+				// the peer as well: nothing of it is retained, so the restart
+				// flag and the long-lived stale timers must not outlive it.
+				if peer.fsm.pConf.ReadOnly().GracefulRestart.State.PeerRestarting || peer.longLivedRunning.Load() {
+					peer.stopPeerRestarting()
+				}
 			}
 
 			// Always clear EndOfRibReceived state on PeerDown
@@ -1806,8 +1812,9 @@ func (s *BgpServer) handleFSMMessage(peer *peer, e *fsmMsg) {
 					peer.fsm.lock.Lock()
 					peer.llgrEndChs = append(peer.llgrEndChs, endCh)
 					peer.fsm.lock.Unlock()
+					// flag every timer as running before any of them can expire
+					peer.llgrRestartTimerStarted(f)
 					go func(family bgp.Family, endCh chan struct{}) {
-						peer.llgrRestartTimerStarted(family)
 						t := peer.llgrRestartTime(family)
 						timer := time.NewTimer(time.Second * time.Duration(t))
 
